@@ -133,8 +133,31 @@ var Presets = map[string]*Config{
 		return &Config{
 			Lib:     lib,
 			Globals: map[string]Global{},
-			Structs: map[string]*Struct{},
-			Fuel:    map[string]string{},
+			Structs: map[string]*Struct{
+				"pair": {Lean: "GoPair", Fields: []Field{{"x", "x", TInt}, {"y", "y", TInt}}},
+			},
+			// tgs#8: the backward scan `for i := n - 1; i >= 0; i--` (n iterations and the final test)
+			Fuel:        map[string]string{"tgs#8": "n.toNat + 1"},
+			DirectRange: true,
+		}
+	}(),
+	// diff/diff.go, func Diff (module GIV/Gen/DiffMainGo.lean, which imports GIV/Gen/DiffGo.lean): `lines` and `tgs` are
+	// the translated definitions of that module, `pair` is its structure GoPair (checked against the file, not emitted
+	// again).  Diff#2 / Diff#3: the two match-expanding loops move start.x down from / end.x up to at most len(x).
+	"diffmain": func() *Config {
+		lib := bytesLib()
+		pair := &Type{K: KStruct, Name: "GoPair"}
+		lib["lines"] = LibFn{Lean: "GIV.Go.Diff.lines", Ret: &Type{K: KList, Elem: TStr}, Option: true}
+		lib["tgs"] = LibFn{Lean: "GIV.Go.Diff.tgs", Ret: &Type{K: KList, Elem: pair}, Option: true}
+		return &Config{
+			Lib:     lib,
+			Globals: map[string]Global{},
+			Structs: map[string]*Struct{
+				"pair": {Lean: "GoPair", Fields: []Field{{"x", "x", TInt}, {"y", "y", TInt}}},
+			},
+			Fuel:         map[string]string{"Diff#2": "x.length + 1", "Diff#3": "x.length + 1"},
+			NoStructDefs: true,
+			DirectRange:  true,
 		}
 	}(),
 	// the standard library's os/env.go (Expand and its helpers): no library calls, default loop budgets
